@@ -374,6 +374,10 @@ impl<P: PageTableFrameMapping> Mapper<Size2MiB> for MappedPageTable<'_, P> {
         if p3_entry.is_unused() {
             return Err(FlagUpdateError::PageNotMapped);
         }
+        // a huge page entry is a mapping of a larger page, not the parent entry of `page`
+        if p3_entry.flags().contains(PageTableFlags::HUGE_PAGE) {
+            return Err(FlagUpdateError::ParentEntryHugePage);
+        }
 
         p3_entry.set_flags(flags);
 
@@ -507,6 +511,10 @@ impl<P: PageTableFrameMapping> Mapper<Size4KiB> for MappedPageTable<'_, P> {
         if p3_entry.is_unused() {
             return Err(FlagUpdateError::PageNotMapped);
         }
+        // a huge page entry is a mapping of a larger page, not the parent entry of `page`
+        if p3_entry.flags().contains(PageTableFlags::HUGE_PAGE) {
+            return Err(FlagUpdateError::ParentEntryHugePage);
+        }
 
         p3_entry.set_flags(flags);
 
@@ -529,6 +537,10 @@ impl<P: PageTableFrameMapping> Mapper<Size4KiB> for MappedPageTable<'_, P> {
 
         if p2_entry.is_unused() {
             return Err(FlagUpdateError::PageNotMapped);
+        }
+        // a huge page entry is a mapping of a larger page, not the parent entry of `page`
+        if p2_entry.flags().contains(PageTableFlags::HUGE_PAGE) {
+            return Err(FlagUpdateError::ParentEntryHugePage);
         }
 
         p2_entry.set_flags(flags);
